@@ -291,6 +291,9 @@ Lemma node_is_dir_get (h : heap) (c : nat) :
   node_is_dir h c = true -> exists ch m, get h c = Some (NDir ch m).
 Proof. unfold node_is_dir. destruct (get h c) as [[ch m| |]|]; try discriminate. eauto. Qed.
 
+Lemma node_is_dir_valid (h : heap) (c : nat) : node_is_dir h c = true -> get h c <> None.
+Proof. unfold node_is_dir. destruct (get h c); [discriminate|discriminate]. Qed.
+
 Lemma good_comp_kind (c : str) : good_comp c -> str_eqb c DOTS = false /\ str_eqb c DOTDOTS = false.
 Proof. intros (_ & _ & H3 & H4). split; apply str_eqb_neq; assumption. Qed.
 
@@ -390,7 +393,7 @@ Definition walk_err_rel (e : ekind) (k : N) : Prop :=
 Definition walk_rel (h : heap) (u : user) (root : nat) (precise : bool) (r : sres) (k : wres) : Prop :=
   match k with
   | WNode par kind name n =>
-      sr_err r = EFileExists /\ sr_child r = Some n /\ (exists p, sr_parent r = Some p) /\
+      sr_err r = EFileExists /\ sr_child r = Some n /\ get h n <> None /\ (exists p, sr_parent r = Some p) /\
       (kind = LNorm -> sr_parent r = Some par /\ (precise = true -> at_name h u root par name (sr_pi r)))
   | WNeg par name _ =>
       sr_err r = ENoSuchFile /\ sr_child r = None /\ sr_parent r = Some par /\
@@ -463,7 +466,7 @@ Section Bridge.
           + intros Hpr _. rewrite (Hsv Hpr). cbn [out_pi]. apply on_comp_last_false. discriminate. }
     destruct (get h n) as [[ch m|dt k i m|link m]|] eqn:Hgn; [| |discriminate|].
     - destruct todo as [|c2 todo]; cbn [is_nil].
-      + cbn. repeat split; eauto.
+      + cbn. repeat split; eauto; unfold get in *; congruence.
       + assert (Hpn : kperm h n 1 u = check_permission m OpenLookup u) by (apply (kperm_dir _ _ _ _ u Hgn)).
         destruct (check_permission m OpenLookup u) eqn:Hcp.
         * apply (IH (done ++ [c]) n); auto; try lia; try discriminate.
@@ -475,7 +478,7 @@ Section Bridge.
           rewrite kwalk_S. unfold node_is_dir at 1. rewrite Hgn, Hpn. cbn [negb]. cbn.
           split; [|intros _ [=]]. right. split; [auto|reflexivity].
     - destruct todo as [|c2 todo]; cbn [is_nil].
-      + cbn. repeat split; eauto.
+      + cbn. repeat split; eauto; unfold get in *; congruence.
       + cbn. split; [|intros _ [=]]. right. split; [auto|reflexivity].
     - cbn. split; [|intros _ [=]]. left. auto.
   Qed.
@@ -600,7 +603,8 @@ Section BridgeTop.
     intros Hg Hlf Hd Hp Hfi Hfk Hmd. destruct cs as [|c cs].
     - destruct fi as [|fi]; [cbn [length] in Hfi; lia|]. destruct fk as [|fk]; [cbn [length] in Hfk; lia|].
       rewrite (search_loop_end h v Hos fi slm vol root _ 0 None [] (Forall_nil _) (pi_new_before [])).
-      rewrite kwalk_S. cbn. split; [reflexivity|]. split; [reflexivity|]. split; [eauto|]. intros [=].
+      rewrite kwalk_S. cbn [walk_rel sr_err sr_child sr_parent]. split; [reflexivity|]. split; [reflexivity|].
+      split; [apply node_is_dir_valid; exact Hd|]. split; [eauto|]. intros [=].
     - destruct Hmd as [->|Hmd]; [|discriminate].
       apply (bridge_nolink_at h v Hos (c :: cs) [] root); auto; try lia; try discriminate.
       apply pi_new_before.
